@@ -315,7 +315,7 @@ func TestVerifC06(t *testing.T) {
 	p := vrep.Env()
 	res := vrep.New("C06", p)
 	defer res.Guard()
-	res.Rule = "E3: every element of the abstract-file grammar (header/metadata/limit variants, record sets, every single and (thorough: every) pair of 32-bit field overwrites from a boundary-value menu) is decoded by the real Parse under a step budget and by the reference decoder; classes are oracle classes (well-formed by record count, malformed accepted/rejected)"
+	res.Rule = "E3: every element of the abstract-file grammar (header/metadata/limit variants, record sets, every single and (thorough: every) pair of 32-bit field overwrites from a boundary-value menu) is decoded by the real Parse under a step budget and by the reference decoder; classes are oracle classes (well-formed by record count, malformed accepted/rejected); every input ends at an inaccessible guard page; heap allocated per input bounded by 64x its size + 1 MiB; a family of files with overlapping records"
 	res.Assumptions = []string{"the reference decoder (engine/ref/counterfile.go) is the arbiter of well-formedness", "little-endian host"}
 	c := &zzvC06{res: res, p: p}
 	if p.Replay != "" {
